@@ -345,7 +345,12 @@ class HTTP2Connection(ConnectionInterface):
         Iterator that returns the bytes of the response body for a given stream ID.
         """
         while True:
-            event = self._receive_stream_event(request, stream_id)
+            try:
+                event = self._receive_stream_event(request, stream_id)
+            except ConnectionNotAvailable:
+                # The response has already started, so the request can no
+                # longer be retried on another connection.
+                raise RemoteProtocolError(self._connection_terminated) from None
             if isinstance(event, h2.events.DataReceived):
                 amount = event.flow_controlled_length
                 self._h2_state.acknowledge_received_data(amount, stream_id)
